@@ -5,6 +5,7 @@ from __future__ import annotations
 import numpy as np
 from hypothesis import strategies as st
 
+from vf import gen
 from vf import oracles as O
 from vf.engine import Ctx, Property
 
@@ -232,7 +233,7 @@ class C12(Property):
         cls = getattr(droplets, spec["cls"])
         p = np.array(spec["position"], float)
         r0 = float(vals[0])
-        d = cls(p, r0)
+        d = cls(*gen.as_given(p, r0, spec["values"]))
         ctx.require(d.dim == dim, "droplet:dim", f"dim {d.dim} != {dim}")
         ctx.require(close(d.volume, O.sphere_volume(r0, dim)), f"droplet:volume:dim{dim}", f"r={r0} volume={d.volume}")
         ctx.require(close(d.surface_area, O.sphere_surface(r0, dim)), f"droplet:surface:dim{dim}", f"r={r0} surface={d.surface_area}")
